@@ -1246,21 +1246,18 @@ func main() {
 				}
 				return true
 			})
-			ast.Inspect(fd.Body, func(n ast.Node) bool {
-				f, ok := n.(*ast.ForStmt)
-				if !ok || f.Cond == nil {
+			// `remainder` is what is compared with `incr` (in the loop condition, or in an `if … break`
+			// inside a condition-less loop)
+			ast.Inspect(fd.Body, func(m ast.Node) bool {
+				c, ok := m.(*ast.CallExpr)
+				if !ok {
 					return true
 				}
-				ast.Inspect(f.Cond, func(m ast.Node) bool {
-					c, ok := m.(*ast.CallExpr)
-					if !ok {
-						return true
+				if sel, ok := c.Fun.(*ast.SelectorExpr); ok && sel.Sel.Name == "Cmp" && len(c.Args) == 1 && identOf(c.Args[0]) == incrVar && incrVar != "" {
+					if name := identOf(sel.X); name != "" {
+						remVar = name
 					}
-					if sel, ok := c.Fun.(*ast.SelectorExpr); ok && sel.Sel.Name == "Cmp" && len(c.Args) == 1 && identOf(c.Args[0]) == incrVar && incrVar != "" {
-						remVar = identOf(sel.X)
-					}
-					return true
-				})
+				}
 				return true
 			})
 			vals := map[string]int64{}
